@@ -77,10 +77,7 @@ func checkC18(c *Ctx, r *Report) {
 			call, ok := v.(*ssa.Call)
 			return ok && calleeKey(call) == "builtin.len" && isParamVar(c, call.Call.Args[0], param)
 		}
-		r4.guard(f, "return nil", rets, "len(rawCerts) >= 1", edgeCmp(func(b *ssa.BinOp) bool {
-			n, ok := constInt(b.Y)
-			return ok && ((b.Op == token.LSS && n == 1) || (b.Op == token.EQL && n == 0) || (b.Op == token.LEQ && n == 0)) && isLen(b.X, "rawCerts")
-		}, false), nil)
+		r4.guard(f, "return nil", rets, "len(rawCerts) >= 1", edgeIntBound(func(v ssa.Value) bool { return isLen(v, "rawCerts") }, 1, intInf, true), nil)
 		// verified flag: phi (or cell) true only past Code==SHA2_256 && bytes.Equal(h.Digest, sha256(leaf))
 		var flag *ssa.Phi
 		for _, b := range f.Blocks {
@@ -171,29 +168,24 @@ func checkC18(c *Ctx, r *Report) {
 		r4.Check(len(missing) == 0 && nRSA >= 9, vrK+": RSA rejection covers every x509.SignatureAlgorithm naming RSA", f.Pos(), nRSA, fmt.Sprintf("%d RSA algorithms rejected", nRSA),
 			"an RSA-signed certificate passes the not-RSA check", strings.Join(missing, ","))
 		// lifetime
-		r4.guard(f, "return nil", rets, "NotAfter-NotBefore <= 14 days", edgeCmp(func(b *ssa.BinOp) bool {
-			n, ok := constInt(b.Y)
-			sub := isResultOfCall(b.X, 0, "(time.Time).Sub")
-			okArgs := false
-			if sub != nil {
-				f0, _ := loadOfField(strip2(callArgs(sub)[0]))
-				f1, _ := loadOfField(strip2(callArgs(sub)[1]))
-				okArgs = f0 != nil && f1 != nil && f0.Name() == "NotAfter" && f1.Name() == "NotBefore"
+		isLifetime := func(v ssa.Value) bool {
+			sub := isResultOfCall(v, 0, "(time.Time).Sub")
+			if sub == nil {
+				return false
 			}
-			return ok && n == cv && cv == 14*24*hour && b.Op == token.GTR && okArgs
-		}, false), nil)
-		nowOK := func(method, field string) EdgePred {
-			return edgeBool(func(v ssa.Value) bool {
-				ci := isResultOfCall(v, 0, "(time.Time)."+method)
-				if ci == nil {
-					return false
-				}
-				fl, _ := loadOfField(strip2(callArgs(ci)[1]))
-				return isResultOfCall(callArgs(ci)[0], 0, "time.Now") != nil && fl != nil && fl.Name() == field
-			}, false)
+			f0, _ := loadOfField(strip2(callArgs(sub)[0]))
+			f1, _ := loadOfField(strip2(callArgs(sub)[1]))
+			return f0 != nil && f1 != nil && f0.Name() == "NotAfter" && f1.Name() == "NotBefore"
 		}
-		r4.guard(f, "return nil", rets, "!now.Before(NotBefore)", nowOK("Before", "NotBefore"), nil)
-		r4.guard(f, "return nil", rets, "!now.After(NotAfter)", nowOK("After", "NotAfter"), nil)
+		r4.Check(cv == 14*24*hour, vrK+": the validity bound is 14 days", f.Pos(), 1, "", "", fmt.Sprint(cv))
+		r4.guard(f, "return nil", rets, "NotAfter-NotBefore <= 14 days", edgeIntBound(isLifetime, -intInf, cv, false), nil)
+		// now within [NotBefore, NotAfter]: order-abstract on (time.Now(), field)
+		nowOK := func(field string, excl ordering) EdgePred {
+			return edgeExcl(func(v ssa.Value) bool { return isResultOfCall(v, 0, "time.Now") != nil },
+				func(v ssa.Value) bool { fl, _ := loadOfField(strip2(v)); return fl != nil && fl.Name() == field }, excl)
+		}
+		r4.guard(f, "return nil", rets, "!now.Before(NotBefore)", nowOK("NotBefore", ordLT), nil)
+		r4.guard(f, "return nil", rets, "!now.After(NotAfter)", nowOK("NotAfter", ordGT), nil)
 	}
 
 	// ---- R2 ---------------------------------------------------------------
